@@ -426,9 +426,9 @@ def blank_recogniser_patterns(model: Model) -> List[str]:
     return found
 
 
-def number_literal_union(model: Model, extra_rx: List[Rx] = ()) -> Tuple[Optional[Lang], List[CharSet], Optional[str]]:
-    """Language of number-literal lexemes the library reads (INT and FLOAT tokens through their regexes, the
-    parser's predicates and the converter domains), on a partition that also refines `extra_rx`."""
+def number_literal_sites(model: Model, extra_rx: List[Rx] = ()) -> Tuple[Any, Any]:
+    """Site languages of INT and FLOAT lexemes (token regex, parser predicates, converter domains), on one partition
+    that also refines `extra_rx`."""
     pats = lexer_patterns(model)
     tokre = token_regexes(model)
     int_names, float_names = tokre.get("INT") or [], tokre.get("FLOAT") or []
@@ -436,11 +436,34 @@ def number_literal_union(model: Model, extra_rx: List[Rx] = ()) -> Tuple[Optiona
         raise AnalysisError("no regex is emitted as INT/FLOAT")
     si = site_language(model, int_names, pats, literal_site(model, "INT"), exclude_prefix_of=float_names, extra_rx=[from_sre(pats[n]) for n in float_names] + list(extra_rx))
     sf = site_language(model, float_names, pats, literal_site(model, "FLOAT"), extra_rx=[from_sre(pats[n]) for n in int_names] + list(extra_rx))
+    return si, sf
+
+
+def number_literal_union(model: Model, extra_rx: List[Rx] = ()) -> Tuple[Optional[Lang], List[CharSet], Optional[str]]:
+    """Language of number-literal lexemes the library reads (INT and FLOAT tokens through their regexes, the
+    parser's predicates and the converter domains), on a partition that also refines `extra_rx`."""
+    si, sf = number_literal_sites(model, extra_rx)
     if si.undecided or sf.undecided:
         return None, [], str(si.undecided or sf.undecided)
     if [c.iv for c in si.classes] != [c.iv for c in sf.classes]:
         return None, [], "INT and FLOAT site languages live on different partitions"
     return si.accepted.product(sf.accepted, "or").minimize(), si.classes, None
+
+
+def lang_accepts(lang: Lang, text: str) -> bool:
+    """Membership of a concrete string in a complete DFA over a partition."""
+    st = lang.start
+    for ch in text:
+        cp = ord(ch)
+        k = None
+        for j, c in enumerate(lang.classes):
+            if any(lo <= cp <= hi for lo, hi in c.iv):
+                k = j
+                break
+        if k is None:
+            return False
+        st = lang.trans[st][k]
+    return bool(lang.accepting[st])
 
 
 # ------------------------------------------------------------- the layer
